@@ -12,7 +12,8 @@ def gen_case(rng, i):
     cplx = dtype in (torch.complex128, torch.complex64)
     is_ttm = rng.random() < 0.25
     d = rng.choice([1, 2, 3, 3, 4, 4, 5, 6, 7])
-    fam = rng.choice(["random", "inflated", "scaled", "deficient", "zero", "cancel", "budget", "zero-slot"])
+    fam = rng.choice(["random", "inflated", "scaled", "deficient", "zero", "cancel", "budget", "zero-slot", "cp-normalised"])
+    if fam == "cp-normalised" and (d < 2 or is_ttm): fam = "random"
     if fam == "zero-slot" and d < 2: fam = "random"
     if fam == "budget" and d < 3: fam = "random"
     N = [rng.choice([1, 2, 2, 3, 4]) for _ in range(d)]
@@ -37,6 +38,22 @@ def gen_case(rng, i):
             if cores[k].shape[-1] > 1: cores[k][..., -1] = cores[k][..., 0]
     elif fam == "zero":
         k = rng.randrange(d); cores[k] = cores[k] * 0
+    elif fam == "cp-normalised":  # a CP sum stored with UNIT-NORM factor vectors (block-diagonal cores, weights in the last core), two terms nearly parallel with
+        # nearly cancelling weights: every unfolding has unit-norm but far from orthogonal columns
+        r_ = rng.choice([3, 4])
+        def unit(v): return v / np.linalg.norm(v)
+        vs = [[unit(np.array([rng.gauss(0, 1) for _ in range(N[k])]) + (1j * np.array([rng.gauss(0, 1) for _ in range(N[k])]) if cplx else 0)) for k in range(d)] for _ in range(r_)]
+        for k in range(d): vs[1][k] = unit(vs[0][k] + 1e-3 * vs[1][k])
+        wts = [1.0, -1.0 + 1e-3] + [rng.uniform(0.5, 2.0) for _ in range(r_ - 2)]
+        cores = []
+        for k in range(d):
+            r0_, r1_ = (1 if k == 0 else r_), (1 if k == d - 1 else r_)
+            c = np.zeros((r0_, N[k], r1_), dtype=np.complex128 if cplx else np.float64)
+            for j in range(r_):
+                c[0 if k == 0 else j, :, 0 if k == d - 1 else j] = vs[j][k] * (wts[j] if k == d - 1 else 1.0)
+            cores.append(c)
+        R = [1] + [r_] * (d - 1) + [1]
+        eps = rng.choice([1e-3, 1e-2, 1e-6])
     elif fam == "zero-slot":     # t1 + 0 + t2 as the block sum stores it: an exactly zero rank slot between two live ones (the QR sweep meets a zero pivot that is not the last)
         def bsum(cs):
             out = []
@@ -130,6 +147,9 @@ def run(tier, seed, replay=None):
             if ([int(r) for r in x.R] != R0 or any(not torch.equal(a, b) for a, b in zip(x.cores, before)) or [c._version for c in x.cores] != vers
                     or [c.untyped_storage().data_ptr() for c in x.cores] != ptrs or len(x.cores) != d):
                 V.fail("operand modified by round [%s]" % fam, desc)
+            # the result is a new object: it must not hold the operand's core list or share storage with it (every order, 1 included)
+            if y is x or y.cores is x.cores or any(c.untyped_storage().data_ptr() in set(ptrs) for c in y.cores):
+                V.fail("round returns an object sharing its cores with the operand [%s]" % ("order 1" if d == 1 else fam), desc)
             Ry = [int(r) for r in y.R]
             full_x = ttgen.ref_full([c.numpy() for c in before]); full_y = ttgen.ref_full([c.detach().numpy() for c in y.cores])
             if y.is_ttm != is_ttm or list(y.N) != list(x.N) or (is_ttm and list(y.M) != list(x.M)) or full_y.shape != full_x.shape:
